@@ -18,6 +18,7 @@ import (
 	"github.com/vimeo/dials"
 	"github.com/vimeo/dials/ez"
 	"github.com/vimeo/dials/sources/flag"
+	"github.com/vimeo/dials/tagformat/caseconversion"
 )
 
 // ---- C18: the ez entry points (DESIGN §4 C18) ----
@@ -25,15 +26,16 @@ import (
 // CfgEz: every leaf can be supplied by the defaults, the file, the
 // environment and a flag; Stamp only ever comes from the file.
 type CfgEz struct {
-	Path      string `dials:"ez_path"`
-	Stamp     uint64 `dials:"ez_stamp"`
-	A         int    `dials:"ez_a"`
-	B         int    `dials:"ez_b"`
-	C         int    `dials:"ez_c"`
-	Name      string `dials:"ez_name"`
-	Lo        int    `dials:"ez_lo"`
-	Hi        int    `dials:"ez_hi"`
-	Forbidden bool   `dials:"ez_forbidden"`
+	Path      string              `dials:"ez_path"`
+	Stamp     uint64              `dials:"ez_stamp"`
+	A         int                 `dials:"ez_a"`
+	B         int                 `dials:"ez_b" dialsalias:"ez_b_old"` // the file (or environment) may still use the old name
+	C         int                 `dials:"ez_c"`
+	Name      string              `dials:"ez_name"`
+	Lo        int                 `dials:"ez_lo"`
+	Hi        int                 `dials:"ez_hi"`
+	Forbidden bool                `dials:"ez_forbidden"`
+	Set       map[string]struct{} `dials:"ez_set"` // written as a list in the file (ez adds the set-to-slice wrapper)
 }
 
 func (c *CfgEz) ConfigPath() (string, bool) { return c.Path, c.Path != "" }
@@ -79,7 +81,8 @@ type EzSpec struct {
 	Flags     EzPart   `json:"flags"`
 	File      EzPart   `json:"file"`
 	Decoy     EzPart   `json:"decoy"`
-	Race      bool     `json:"race"` // the writer starts while the entry point is still running
+	Kebab     bool     `json:"kebab,omitempty"` // Params.FileFieldNameEncoder: the file's keys are kebab-case
+	Race      bool     `json:"race"`            // the writer starts while the entry point is still running
 	Writes    []EzPart `json:"writes,omitempty"`
 	WriteHow  []string `json:"write_how,omitempty"` // rename | rewrite | delete-create
 }
@@ -125,6 +128,21 @@ func genEz(seed uint64, faulty bool) *Scenario {
 	e.Defaults, e.Env, e.Flags = layer(0, 50), layer(2, 35), layer(3, 35)
 	e.File, e.Decoy = layer(1, 50), layer(1, 50)
 	e.File.ID, e.Decoy.ID = g.id(), g.id()
+	e.Kebab = g.pct(20)
+	fileExtras := func(p *EzPart) {
+		if v, ok := p.Leaves["ez_b"]; ok && g.pct(40) {
+			delete(p.Leaves, "ez_b")
+			p.Leaves["ez_b_old"] = v // the alias
+		}
+		if g.pct(35) {
+			p.Leaves["ez_set"] = fmt.Sprintf("s%d|t%d", g.id(), g.id())
+		}
+	}
+	fileExtras(&e.File)
+	fileExtras(&e.Decoy)
+	if g.pct(25) {
+		e.Defaults.Leaves["ez_set"] = "d1|d2"
+	}
 	// validity
 	switch {
 	case g.pct(25):
@@ -153,6 +171,7 @@ func genEz(seed uint64, faulty bool) *Scenario {
 		for i := 0; i < n; i++ {
 			p := layer(1, 50)
 			p.ID = g.id()
+			fileExtras(&p)
 			if faulty && g.pct(15) {
 				p.Broken = true
 			}
@@ -175,7 +194,17 @@ func genEz(seed uint64, faulty bool) *Scenario {
 	return sc
 }
 
-func (p *EzPart) render(format string) []byte {
+func (p *EzPart) render(format string, kebab ...bool) []byte {
+	out := p.renderRaw(format)
+	if len(kebab) > 0 && kebab[0] && !p.Broken {
+		// keys only: values never contain "ez_"
+		out = []byte(strings.ReplaceAll(string(out), "ez_", "ez-"))
+		out = []byte(strings.ReplaceAll(string(out), "ez-b_old", "ez-b-old"))
+	}
+	return out
+}
+
+func (p *EzPart) renderRaw(format string) []byte {
 	if p.Broken {
 		return []byte(map[string]string{"json": `{"ez_a": `, "yaml": "ez_a: [1, 2\n", "toml": "ez_a = = 1\n", "cue": "ez_a: {{{\n"}[format])
 	}
@@ -186,8 +215,15 @@ func (p *EzPart) render(format string) []byte {
 	sort.Strings(keys)
 	var b strings.Builder
 	q := func(k, v string) string {
-		if k == "ez_name" {
+		switch k {
+		case "ez_name":
 			return strconv.Quote(v)
+		case "ez_set":
+			parts := strings.Split(v, "|")
+			for i := range parts {
+				parts[i] = strconv.Quote(parts[i])
+			}
+			return "[" + strings.Join(parts, ", ") + "]"
 		}
 		return v
 	}
@@ -204,7 +240,12 @@ func (p *EzPart) render(format string) []byte {
 		for _, k := range keys {
 			fmt.Fprintf(&b, "%s = %s\n", k, q(k, p.Leaves[k]))
 		}
-	default: // yaml, cue
+	case "cue": // keys quoted: a kebab-case key is not a Cue identifier
+		fmt.Fprintf(&b, "\"ez_stamp\": %d\n", p.ID)
+		for _, k := range keys {
+			fmt.Fprintf(&b, "%q: %s\n", k, q(k, p.Leaves[k]))
+		}
+	default: // yaml
 		fmt.Fprintf(&b, "ez_stamp: %d\n", p.ID)
 		for _, k := range keys {
 			fmt.Fprintf(&b, "%s: %s\n", k, q(k, p.Leaves[k]))
@@ -261,8 +302,13 @@ func applyLeaves(c *CfgEz, p *EzPart) {
 		switch k {
 		case "ez_a":
 			c.A = n
-		case "ez_b":
+		case "ez_b", "ez_b_old":
 			c.B = n
+		case "ez_set":
+			c.Set = map[string]struct{}{}
+			for _, x := range strings.Split(v, "|") {
+				c.Set[x] = struct{}{}
+			}
 		case "ez_c":
 			c.C = n
 		case "ez_name":
@@ -367,15 +413,15 @@ func runEz(sc *Scenario, res *Result, keepLog bool) {
 	r.contents[e.File.ID] = &e.File
 	r.contents[e.Decoy.ID] = &e.Decoy
 	if e.FileState == "ok" {
-		must(os.WriteFile(r.path, e.File.render(e.Format), 0644))
+		must(os.WriteFile(r.path, e.File.render(e.Format, e.Kebab), 0644))
 		r.written = append(r.written, e.File.ID)
 	}
-	must(os.WriteFile(r.decoy, e.Decoy.render(e.Format), 0644))
+	must(os.WriteFile(r.decoy, e.Decoy.render(e.Format, e.Kebab), 0644))
 	unset := r.setEnv()
 	defer unset()
-	r.rendered = map[string]bool{string(e.File.render(e.Format)): true, string(e.Decoy.render(e.Format)): true}
+	r.rendered = map[string]bool{string(e.File.render(e.Format, e.Kebab)): true, string(e.Decoy.render(e.Format, e.Kebab)): true}
 	for i := range e.Writes {
-		r.rendered[string(e.Writes[i].render(e.Format))] = true
+		r.rendered[string(e.Writes[i].render(e.Format, e.Kebab))] = true
 	}
 	simrt.OnFileRead(func(rr simrt.ReadRecord) {
 		if rr.Err == "" && !r.rendered[string(rr.Data)] && r.tornAt == 0 {
@@ -393,6 +439,10 @@ func runEz(sc *Scenario, res *Result, keepLog bool) {
 		OnWatchedError: func(_ context.Context, err error, o, n *CfgEz) {
 			r.cbs = append(r.cbs, &ezCB{kind: "err", enter: s.Step(), old: o, new: n, err: err})
 		},
+	}
+	if e.Kebab {
+		params.DialsTagNameDecoder = caseconversion.DecodeLowerSnakeCase
+		params.FileFieldNameEncoder = caseconversion.EncodeKebabCase
 	}
 	r.clients++
 	s.Spawn("ez", func() {
@@ -442,7 +492,7 @@ func runEz(sc *Scenario, res *Result, keepLog bool) {
 			for i := range e.Writes {
 				p := &e.Writes[i]
 				r.contents[p.ID] = p
-				content := p.render(e.Format)
+				content := p.render(e.Format, e.Kebab)
 				switch e.WriteHow[i] {
 				case "rename":
 					os.WriteFile(r.path+".tmp", content, 0644)
